@@ -25,7 +25,7 @@ from simworld import World, Violation            # noqa: E402
 _real_time = _time.time
 _real_perf = _time.perf_counter
 
-MONITOR_KINDS = ('deadlock', 'collective-mismatch', 'unmatched-collective', 'buffer-mismatch',
+MONITOR_KINDS = ('deadlock', 'collective-mismatch', 'unmatched-collective', 'unmatched-message', 'buffer-mismatch',
                  'buffer-alias', 'buffer-overrun', 'h5-conflicting-writes', 'event-cap')
 HARNESS_KINDS = ('harness-unsupported', 'harness-stuck-thread')
 
